@@ -21,6 +21,12 @@ const L_BATCH: &str = "C03.bounded.failed_algo_batch_reported";
 const L_REFUSED: &str = "C03.bounded.refused_never_delivered";
 const L_DISABLED: &str = "C03.bounded.disabled_no_algo_orders";
 const L_COMMANDS: &str = "C03.bounded.commands_actioned_when_disabled";
+/// dispatch id C01D: the same histories, reported under C01's label and only as far as the TRACKED SET is concerned
+/// ("an order becomes tracked when a request for it is SENT" - not when it failed to send, was refused or was merely asked for)
+const L_C01_DISPATCH: &str = "C01.bounded.tracked_exactly_when_a_request_was_sent";
+static FOR_C01: std::sync::atomic::AtomicBool = std::sync::atomic::AtomicBool::new(false);
+fn for_c01() -> bool { FOR_C01.load(std::sync::atomic::Ordering::Relaxed) }
+pub fn run_dispatch_for_c01(seed: u64, thorough: bool) -> u64 { FOR_C01.store(true, std::sync::atomic::Ordering::Relaxed); run(seed, thorough) }
 const L_REENABLE: &str = "C03.bounded.reenable_generates_on_that_event";
 
 fn count(v: &[Req], r: &Req) -> usize { v.iter().filter(|q| *q == r).count() }
@@ -49,6 +55,7 @@ pub fn sync_diff(lay: &Layout, m: &Model, s: &State) -> Option<String> {
 struct Run<'a> { seen: &'a mut HashSet<&'static str>, desc: &'a dyn Fn(usize) -> String, failed: bool }
 impl Run<'_> {
     fn fail(&mut self, label: &'static str, k: usize, observed: String, expected: String) {
+        if for_c01() && label != L_C01_DISPATCH { return; }
         self.failed = true;
         if self.seen.insert(label) { report(label, (self.desc)(k), observed, expected); }
     }
@@ -126,6 +133,7 @@ pub fn run_scenario<R: RiskManager<State = State>>(rig: &mut Rig<R>, links: [Lin
                 }
             };
             if !ok { run.fail(L_INFLIGHT, k, format!("{} reported sent; order state afterwards {:?}", r.short(), st), "OpenInFlight / CancelInFlight".into()); }
+            if !ok { run.fail(L_C01_DISPATCH, k, format!("{} reported sent; order state afterwards {:?}", r.short(), st), "tracked as OpenInFlight / CancelInFlight".into()); }
             if !exps.iter().any(|e| e.req == *r && e.outcome == Outcome::Sent) {
                 run.fail(label_of(&exps, r), k, format!("{} reported sent", r.short()), format!("reference outcome: {:?}", exps.iter().find(|e| e.req == *r).map(|e| e.outcome)));
             }
@@ -141,6 +149,7 @@ pub fn run_scenario<R: RiskManager<State = State>>(rig: &mut Rig<R>, links: [Lin
             // (on the tree as found a fatal algo tick dropped its whole output from the audit - repaired by a fix: commit, see /verif/KNOWN_FINDINGS;
             // the report of a fatal tick is now checked like any other)
             let outputs_dropped = false; let _ = algo_failed;
+            if !mark_ok { run.fail(L_C01_DISPATCH, k, format!("{} ({:?} by the reference: link {:?}): order state afterwards {:?}", r.short(), e.outcome, model.link(x), st), format!("{:?}", model.orders[i].get(cid).map(|o| &o.state))); }
             match e.outcome {
                 Outcome::Sent => {
                     let n = exps.iter().filter(|f| f.req == *r && f.outcome == Outcome::Sent).count();
